@@ -33,6 +33,39 @@ class OpContract:
         return f"{self.file}::{self.func}"
 
 
+class ClassContract:
+    """sidecar contract of one class (K2): the real methods refine a spec machine under a coupling
+    invariant over the object's fields; call-outs are compared event by event and the invariant must
+    already hold at every call-out (re-entrant calls assume it).
+
+    fields:  name -> kind (bool | int | val | optval | seq | reflist:<role> | lock | const:<py> | callback)
+    methods: name -> dict(call=<python expr over self and the args>, args={name: kind}, spec=<spec method>)
+             argument kinds: val | exc | ref:<role> | int
+    """
+
+    def __init__(self, name, props, file, cls, fields, spec, spec_fields, inv, methods, requires=None, witness=None,
+                 notes="", imports=None, loops=None, also=()):
+        self.spec_fields = spec_fields
+        self.also = list(also)
+        self.name = name
+        self.props = props
+        self.file = file
+        self.cls = cls
+        self.fields = fields
+        self.spec = spec
+        self.inv = inv
+        self.methods = methods
+        self.requires = requires
+        self.witness = witness
+        self.notes = notes
+        self.imports = imports or {}
+        self.loops = loops or {}
+
+    @property
+    def uid(self):
+        return f"{self.file}::{self.cls}"
+
+
 class MonitorContract:
     """sidecar contract of one lock-protected class (K3): monitor invariant, rely/guarantee, tokens.
 
